@@ -409,6 +409,20 @@ func oracleCLI(c CLICase) error {
 	return nil
 }
 
+// startsWithStatementKeyword: the documented inline form is a statement given as the argument; the command tells
+// it from a file name by its first word. Any other text can only be given through a file or stdin.
+func startsWithStatementKeyword(s string) bool {
+	f := strings.Fields(s)
+	if len(f) == 0 || !(strings.HasPrefix(s, f[0])) {
+		return false
+	}
+	switch strings.ToUpper(f[0]) {
+	case "SELECT", "INSERT", "UPDATE", "DELETE", "CREATE", "DROP", "ALTER", "TRUNCATE", "WITH", "MERGE", "SHOW", "DESCRIBE", "REFRESH", "REPLACE":
+		return true
+	}
+	return false
+}
+
 func describe(files []File) string {
 	var s []string
 	for _, f := range files {
@@ -628,7 +642,7 @@ func TestCLIVerdict(t *testing.T) {
 						vec[0] = "lint_injection"
 					}
 				}
-				if first := c.Files[0].Content; c.Mode == "inline" && (first == "" || !(first[0] >= 'A' && first[0] <= 'Z' || first[0] >= 'a' && first[0] <= 'z')) {
+				if first := c.Files[0].Content; c.Mode == "inline" && !startsWithStatementKeyword(first) {
 					c.Mode = "stdin"
 				}
 				if c.Mode == "stdin" && c.Files[0].Content == "" {
@@ -659,7 +673,7 @@ func TestCLIVerdict(t *testing.T) {
 			c.Flags = keep
 			// inline SQL is told from a file name by its first word (the documented form starts with a
 			// statement keyword); anything else can only be given through a file or stdin
-			if first := c.Files[0].Content; c.Mode == "inline" && (first == "" || !(first[0] >= 'A' && first[0] <= 'Z' || first[0] >= 'a' && first[0] <= 'z')) {
+			if first := c.Files[0].Content; c.Mode == "inline" && !startsWithStatementKeyword(first) {
 				c.Mode = "stdin"
 			}
 			if c.Mode == "stdin" && c.Files[0].Content == "" {
